@@ -56,6 +56,7 @@ def run(ctx):
     succ = [t for t in rets if not (t[0] == "call" and t[1].endswith("::from_residual"))]
     cells_key = None
     fallback = None
+    nres = 0
     for t in succ:
         if is_variant(t, "Err"):
             continue
@@ -68,7 +69,8 @@ def run(ctx):
         if t[0] == "call" and t[1] == SER:
             a = peel(t[2][0])
             if est_of(a):
-                run.ok("C01.R1", "result:" + fmt(a)[:60], "result is serialize(estimate(.., resolution))", w)
+                run.ok("C01.R1", "result:estimate#%d" % nres, "result is serialize(%s)" % fmt(a)[:60], w)
+                nres += 1
                 continue
             # fallback: element of the recorded vector
             if a[0] == "field" and str(a[2]) == "0":
@@ -77,7 +79,8 @@ def run(ctx):
                     cells_key = ref_key(base[2][0]) or (("_%d" % peel(base[2][0])[1]) if peel(base[2][0])[0] == "escaped" else None)
                     fallback = (t, base)
                     continue
-        run.bad("C01.R1", "result:" + fmt(t)[:60], "result %s is not serialize(estimate) of the requested resolution" % fmt(t)[:160], w)
+        run.bad("C01.R1", "result:other#%d" % nres, "result %s is not serialize(estimate) of the requested resolution" % fmt(t)[:160], w)
+        nres += 1
     # world cell only for resolution == -1: in the regime 0..29 no constant result is feasible
     from ..query import regime_assumptions
     A = regime_assumptions(ft, ("param", 2), 0, 29)
@@ -175,6 +178,18 @@ def run(ctx):
     run.floor("C01.R4", "depth sites", len(forms), 4)
     for nm, f in sorted(forms.items()):
         run.inst("C01.R4", "depth:" + nm, f == want, "%s = %s*resolution + %s (must be resolution - FIRST_HILBERT_RESOLUTION + 1 = (1, %d))" % (nm, f and f[0], f and f[1], 1 - first), w)
+    # ---- R6: probes are de-duplicated by an injective key: the serialized ID of the very estimate that may be skipped
+    sets = [c for c in ft.calls() if c.callee and ("HashSet" in (c.inst or "") or "hash_set" in c.callee or "BTreeSet" in (c.inst or ""))
+            and c.callee.split("::")[-1] in ("insert", "contains") and len(c.args) == 2]
+    if sets:
+        badk = []
+        for c in sets:
+            k = peel(c.args[1])
+            okk = k[0] == "payload" and k[1] == "Ok" and k[2][0] == "call" and k[2][1] == SER and est_of(peel(k[2][2][0]))
+            if not okk:
+                badk.append(fmt(k)[:70])
+        run.inst("C01.R6", "dedup-key-is-cell-id", not badk,
+                 "probe estimates are skipped as duplicates by %s" % ("their serialized cell ID (injective)" if not badk else "a key that is not the serialized ID: %s - distinct cells may collide and the containing one be skipped" % badk[:2]), w)
     # ---- R5: the point-in-pentagon test classifies by the sign of the cross product: threshold exactly 0
     CP = "a5::geometry::pentagon::PentagonShape::contains_point"
     if CP not in facts.fns:
